@@ -201,7 +201,8 @@ def run_C12(ctx):
     ctx.notes['exhaustive'] = True
     ctx.sample({'behaviour': em[len(em) // 2]})
     tmpdir = ctx.mkdtemp('ss')
-    items = list(enumerate(em)) * (1 if not ctx.thorough else 6)
+    reps = 1 if not ctx.thorough else 6
+    items = [(i + r * len(em), b) for r in range(reps) for i, b in enumerate(em)]
     for col in pmap(lambda c: replay_chunk(c, tmpdir, ctx.seed + (0 if not ctx.thorough else len(c))), items):
         col.merge_into(ctx)
     col = Collector()
